@@ -27,6 +27,37 @@ FILE_POOL = [
 UTF8_FILES = [("café.txt", "utf8 name\n"), ("日本.txt", "cjk name\n")]
 RAW_FILES = [("\udcae.txt", "raw byte name\n"), ("lat\udce9.txt", "latin1 name\n")]
 DIR_POOL = ["dir1", "sub", "docs", "deep", "pics", "d.e", "with space"]
+# names that match the configured archive pattern (\.zip$) without being the archive that is browsed
+ZIPNAMED_DIRS = ["old.zip", "x.zip"]
+
+
+def nested_zip_bytes():
+    """a real little archive, to be stored as a document inside the tree (latin-1 str)"""
+    import io
+    import zipfile
+    b = io.BytesIO()
+    with zipfile.ZipFile(b, "w") as z:
+        zi = zipfile.ZipInfo("inner.txt", date_time=(2020, 1, 1, 0, 0, 0))
+        z.writestr(zi, b"inner\n")
+    return b.getvalue().decode("latin-1")
+
+
+def shorten(name):
+    """a name that is a proper string prefix of `name` (None if too short)"""
+    stem = name
+    return stem[:-1] if len(stem) > 2 else None
+
+
+def near_misses(path):
+    """paths that differ from `path` in one component by a proper prefix / an extension of it"""
+    parts = path.split("/")
+    out = []
+    for i, c in enumerate(parts):
+        sh = shorten(c)
+        if sh:
+            out.append("/".join(parts[:i] + [sh] + parts[i + 1:]))
+        out.append("/".join(parts[:i] + [c + "s"] + parts[i + 1:]))
+    return out
 UTF8_DIRS = ["café", "über"]
 RAW_DIRS = ["raw\udce9"]
 
@@ -74,6 +105,14 @@ def gen_tree(rng, feats=None):
         names.append(rng.choice(UTF8_DIRS))
     if "raw" in feats or rng.random() < 0.25:
         names.append(rng.choice(RAW_DIRS))
+    if "zipnames" in feats or rng.random() < 0.3:
+        names.append(rng.choice(ZIPNAMED_DIRS))
+    if "prefixes" in feats or rng.random() < 0.3:
+        # a sibling whose name is a proper string prefix of another directory's name
+        base = rng.choice([n for n in names if len(n) > 2 and all(ord(c) < 128 for c in n)] or ["docs"])
+        if base not in names:
+            names.append(base)
+        names.insert(rng.randrange(len(names) + 1), base[:-1])
     for n in names:
         parent = rng.choice(dirs) if rng.random() < 0.5 else ""
         if parent.count("/") >= 2:
@@ -84,6 +123,7 @@ def gen_tree(rng, feats=None):
         dirs.append(p)
         add({"path": p, "kind": "dir", "explicit": rng.random() < 0.5, "flag": flag_for(p)})
     # files
+    per_dir = {}
     for d in dirs:
         fp = FILE_POOL[:]
         rng.shuffle(fp)
@@ -93,6 +133,12 @@ def gen_tree(rng, feats=None):
             chosen.append(rng.choice(UTF8_FILES))
         if rng.random() < 0.25 or ("raw" in feats and d == ""):
             chosen.append(rng.choice(RAW_FILES))
+        if "zipnames" in feats or rng.random() < 0.2:
+            chosen.append(rng.choice([("notes.zip", "a text file with an archive-like name\n"), ("inner.zip", nested_zip_bytes())]))
+        if ("prefixes" in feats or rng.random() < 0.2) and chosen:
+            n0, _ = chosen[0]
+            if shorten(n0) and all(shorten(n0) != x for x, _ in chosen):
+                chosen.insert(rng.randrange(len(chosen) + 1), (shorten(n0), "name is a prefix of a sibling\n"))
         for n, data in chosen:
             p = join(d, n)
             add({"path": p, "kind": "file", "data": data, "flag": flag_for(p)})
@@ -103,7 +149,10 @@ def gen_tree(rng, feats=None):
                  "flag": flag_for(d)})
         if rng.random() < 0.25:
             add({"path": join(d, ".hidden"), "kind": "file", "data": "dot file\n", "flag": flag_for(d)})
-        files_here = [n for n, _ in chosen]
+        per_dir[d] = [n for n, _ in chosen]
+    # second pass, when every file exists: link files, gophermaps, .cap
+    for d in dirs:
+        files_here = per_dir[d]
         r = rng.random()
         if r < 0.2 or ("links" in feats and d == ""):
             tgt = files_here[0]
@@ -113,7 +162,18 @@ def gen_tree(rng, feats=None):
             add({"path": join(d, rng.choice([".Links", ".names"])), "kind": "file", "data": to_raw(blocks), "flag": flag_for(d)})
         elif r < 0.4 or ("gophermap" in feats and d == ""):
             tgt = files_here[0]
-            gm = "iWelcome to %s\tfake\t(NULL)\t0\nplain info line\n0Relative %s\t%s\n1Other host\t/x\tother.example\t7070\n0Missing\tnot-there.txt\nhURL\tURL:http://example.org/\n" % (d or "top", tgt, tgt)
+            below = [e["path"] for e in ents if e["kind"] == "file" and (e["path"].startswith(d + "/") if d else True)
+                     and e["path"] != join(d, tgt)]
+            lines = ["0Relative %s\t%s" % (tgt, tgt), "1Other host\t/x\tother.example\t7070", "0Missing\tnot-there.txt",
+                     "hURL\tURL:http://example.org/"]
+            for bp in rng.sample(below, min(3, len(below))):
+                relp = bp[len(d) + 1:] if d else bp
+                lines.append("0Deeper %s\t%s" % (relp.split("/")[-1], relp))
+                nm = near_misses(relp)
+                if nm:
+                    lines.append("0Stale\t%s" % rng.choice(nm))
+            rng.shuffle(lines)
+            gm = "iWelcome to %s\tfake\t(NULL)\t0\nplain info line\n" % (d or "top") + "\n".join(lines) + "\n"
             add({"path": join(d, "gophermap"), "kind": "file", "data": to_raw(gm), "flag": flag_for(d)})
         if rng.random() < 0.12 and files_here:
             capd = join(d, ".cap")
@@ -177,7 +237,9 @@ def gen_tree(rng, feats=None):
         elif kind == "absdir" and realdirs:
             dest = "/" + rng.choice(realdirs)
         elif kind == "dangling":
-            dest = rng.choice(["nothing-here", "../nowhere/x.txt", "/no/such/member", "a.txt/not-a-dir"])
+            nm = [q for f0 in files[:6] for q in near_misses(f0) if q not in used and q.split("/")[0] not in used]
+            dest = rng.choice(["nothing-here", "../nowhere/x.txt", "/no/such/member", "a.txt/not-a-dir"] +
+                              [rel(d, q) for q in rng.sample(nm, min(3, len(nm))) if rel(d, q)])
         elif kind == "escape":
             # climbs above the archive root; the name it then asks for may well exist INSIDE the archive
             tops = [f for f in files if "/" not in f]
@@ -279,6 +341,10 @@ def tree_selectors(tree, rng, extra=6):
     for _ in range(extra):
         base = rng.choice(paths)
         paths.append(join(base, rng.choice(["missing.txt", "nope", "a.txt", "gophermap", ".abstract", "x/y"])))
+    real = [e["path"] for e in tree]
+    for pth in rng.sample(real, min(len(real), 2 * extra)):
+        nm = near_misses(pth)
+        paths.append(rng.choice(nm))
     seen = set()
     out = []
     for p in paths:
